@@ -1596,7 +1596,10 @@ sexp sexp_intern(sexp ctx, const char *str, sexp_sint_t len) {
   /* not found, make a new symbol */
   sexp_gc_preserve1(ctx, sym);
   sym = sexp_c_string(ctx, str, len);
-  if (sexp_exceptionp(sym)) return sym;
+  if (sexp_exceptionp(sym)) {
+    sexp_gc_release1(ctx);
+    return sym;
+  }
 #if ! SEXP_USE_PACKED_STRINGS
   sym = sexp_string_bytes(sym);
 #endif
